@@ -29,7 +29,8 @@ TraceOps ==
     /\ LET e == TraceLog[l]
            sorted == SortOps(e.ops)
            out == IF e.published THEN Dedup(sorted, {}) ELSE sorted
-       IN /\ Len(e.reported) = Len(out)
+       IN /\ e.bad = ""
+          /\ Len(e.reported) = Len(out)
           /\ InOrder(e.reported)
           \* (two operations of one reference in one slot: which of them is kept is not determined; the slots are)
           /\ e.reported = Slots(out)
